@@ -105,6 +105,16 @@ def judge_sizes(em, model, sizes, mode):
     return viol, n
 
 
+def judge_helpers(text):
+    """(violations, number of helper cases) from the HELPER lines of the C driver"""
+    viol, n = [], 0
+    for m in re.finditer(r"^HELPER name=(\w+) ty=(\w+) n=(\d+) ok=(\d)(.*)$", text, re.M):
+        n += 1
+        if m.group(4) != "1":
+            viol.append(("header-helper:%s" % m.group(1), "%s for %s with %s items does not deliver what the Rust side fed it%s" % (m.group(1), m.group(2), m.group(3), m.group(5))))
+    return viol, n
+
+
 def parse_calls(text):
     calls = []
     for line in text.splitlines():
@@ -174,7 +184,7 @@ def drive(wdir, em, model, out_path, header_text):
         return dict(build_error=r["err"][:3000], wrappers=wrappers, calls=[])
     x = common.run([exe], env=common.env_with({"ASAN_OPTIONS": "detect_leaks=0:halt_on_error=1:exitcode=77"}), timeout=120)
     calls = parse_calls(x["out"])
-    return dict(run_rc=x["rc"], run_err=x["err"][:2000], done="DONE calls=" in x["out"], wrappers=wrappers, calls=calls, sizes=parse_sizes(x["out"]))
+    return dict(run_rc=x["rc"], run_err=x["err"][:2000], done="DONE calls=" in x["out"], wrappers=wrappers, calls=calls, sizes=parse_sizes(x["out"]), helpers=judge_helpers(x["out"]))
 
 
 def judge(em, model, res, only_roots=None):
